@@ -9,7 +9,7 @@ import math
 from . import pe as P
 from .pe import (Tensor, Obj, Func, ClassRef, Ext, ShapeV, Opaque, C, fr,
                  is_num, mkfloat, is_floaty, PyRaise, FloatTag, Mock, NArr,
-                 NDArr)
+                 NDArr, FormattedNumber)
 from .nf import log2_exact
 
 # canonical names -> elementwise unary application name
@@ -272,6 +272,30 @@ def call(pe, name, args, kwargs, node):
           d[k] = v
     d.update(kwargs)
     return d
+  if name == "collections.namedtuple":
+    tname = args[0]
+    fields = args[1]
+    if isinstance(fields, str):
+      fields = fields.replace(",", " ").split()
+    fields = list(fields)
+
+    def construct(pe_, a, k, tname=tname, fields=fields):
+      if len(a) > len(fields):
+        raise PyRaise("TypeError", "%s() takes %d positional arguments" %
+                      (tname, len(fields)))
+      vals = dict(zip(fields, a))
+      for kk, vv in k.items():
+        if kk not in fields or kk in vals:
+          raise PyRaise("TypeError", "%s() got an unexpected argument %s" %
+                        (tname, kk))
+        vals[kk] = vv
+      missing = [f for f in fields if f not in vals]
+      if missing:
+        raise PyRaise("TypeError", "%s() missing %s" % (tname, missing))
+      vals["_fields"] = tuple(fields)
+      return Mock(tname, vals)
+    return Mock("namedtuple " + str(tname), {"__call__": construct,
+                                             "__name__": tname})
   if name in ("copy.deepcopy", "copy.copy"):
     def dc(v, memo):
       if isinstance(v, Obj):
@@ -365,6 +389,8 @@ def call(pe, name, args, kwargs, node):
     v = args[0]
     if isinstance(v, Tensor):
       return v
+    if isinstance(v, FormattedNumber):
+      return v.value if isinstance(v.value, Tensor) else mkfloat(fr(v.value))
     if isinstance(v, str):
       try:
         fv = float(v)
@@ -699,6 +725,14 @@ def call(pe, name, args, kwargs, node):
         vals = [pe.truth(e) for e in x]
         return all(vals) if REDUCE[name] == "reduce_all" else any(vals)
       return pe.truth(x)
+    if isinstance(x, P.NDArr) and axis is None:
+      x = P.NArr(x.flat())
+    if isinstance(x, P.NArr) and axis is None and x and \
+        REDUCE[name] == "reduce_sum":
+      r = x[0]
+      for e in x[1:]:
+        r = pe.binop(ast.Add(), r, e)
+      return r
     if not isinstance(x, Tensor):
       if isinstance(x, (list, tuple)) and concrete_list(x) and \
           REDUCE[name] in ("reduce_max", "reduce_min"):
@@ -980,7 +1014,7 @@ def isinstance_(pe, v, ty):
       if isinstance(v, bool):
         return True
     elif n == "list":
-      if isinstance(v, list):
+      if isinstance(v, list) and not isinstance(v, NArr):
         return True
     elif n == "tuple":
       if isinstance(v, tuple):
@@ -990,6 +1024,8 @@ def isinstance_(pe, v, ty):
         return True
     elif n in ("np.ndarray", "tf.Tensor", "np.generic"):
       if isinstance(v, Tensor):
+        return True
+      if n == "np.ndarray" and isinstance(v, (NArr, NDArr)):
         return True
     elif n in ("tf.Variable",):
       if isinstance(v, P.Var):
